@@ -137,6 +137,7 @@ def build(spec, channels):
         acc[key] = g * (Rt @ a_ref) + float(nz.get('acc', 0.0)) * g * n_a
         mag[key] = ms * (Rt @ m_ref) + float(nz.get('mag', 0.0)) * ms * n_m
     mask = np.zeros(n, dtype=np.int64)
+    mask_am = np.zeros(n, dtype=np.int64)      # faults that touched the accelerometer or magnetometer channels
     for k in kicks:
         mask[k] |= _FBIT['kick']
     fired = {k: 0 for k in FAULT_KINDS}
@@ -170,6 +171,8 @@ def build(spec, channels):
                 else:
                     raise ValueError(f'unknown fault {kind}')
         mask[s:e] |= _FBIT[kind]
+        if any(x in ('acc', 'mag') for x in sensors):
+            mask_am[s:e] |= _FBIT[kind]
         fired[kind] += e - s
     if dups:
         idx = list(range(n))
@@ -185,6 +188,7 @@ def build(spec, channels):
         acc = {k: v[idx] for k, v in acc.items()}
         mag = {k: v[idx] for k, v in mag.items()}
         truthQ, rate, mask = truthQ[idx], rate[idx], mask[idx] | dupmask
+        mask_am = mask_am[idx]
         labels = [labels[i] for i in idx]
     # no sample may leave acc and mag (nearly) parallel: the properties exclude it.  Faults that freeze or
     # replace one of the two vectors while the body turns can produce it, so every tick is looked at.
@@ -208,6 +212,7 @@ def build(spec, channels):
     h.acc = {k: np.ascontiguousarray(v) for k, v in acc.items()}
     h.mag = {k: np.ascontiguousarray(v) for k, v in mag.items()}
     h.fault_mask = mask
+    h.fault_mask_am = mask_am
     h.fired = fired
     h.kicks = kicks
     h.labels = labels
